@@ -12,7 +12,8 @@ space against a mirror of the container rng C10, getters = scan in linear time a
 rule C12, pool balance / clean returns C18, per-bond count symmetry C01). Model-independent like `kern` / `apicov` (the output
 column is the constant `ok`): it supports the search for failing inputs in a regime the correspondence cannot reach and is not
 a proof. `run(ck, mode)` is called from the check of the property whose statement supplies the oracle; `mode` is the harness
-mode (`manybonds`, `manyops`, `bigcluster`, `longstring`, `densegraph`, `longloops`, or `<mode>.<scenario>`)."""
+mode (`manybonds`, `manyops`, `bigcluster`, `longstring`, `densegraph`, `hubstar`, `longloops`, `manyvars`, `longrun`,
+`classicalring`, or `<mode>.<scenario>`, see design_notes/BigScale.md for the wiring table)."""
 import hashlib
 import re
 
